@@ -535,6 +535,9 @@ class ConfigParser(object):
     potential = curr_node['potential_label']
     # ... extract parameters
     parameters = [p for p in curr_node['potential_parameters']]
+    for p in parameters:
+      if isinstance(p, float) and (p != p or p in (float("inf"), float("-inf"))):
+        raise ConfigParserException("Parameter of potential form '{}' is not a finite number".format(potential))
     # ... are there any more (next)
     n = self._descend_tree(sibling_iterator)
     # ... build tuple
